@@ -502,8 +502,12 @@ def gen(rng, n, tier):
         elif x < 0.88:
             out.append(_wsfile(rng))
         elif x < 0.93:
-            out.append({"k": "replay", "file": rng.choice(REPLAY_FILES), "rq": rng.choice([None, False, True, True]),
-                        "rs": rng.choice([None, False, True]), "noresp": rng.chance(0.25)})
+            f = rng.choice(REPLAY_FILES)
+            c = {"k": "replay", "file": f, "rq": rng.choice([None, False, True, True]),
+                 "rs": rng.choice([None, False, True]), "noresp": rng.chance(0.35)}
+            if f == "dumpfile-011.mitm":
+                c["adv"] = rng.randint(11, 16)  # start from the 0.<adv> shape of the record
+            out.append(c)
         else:
             out.append({"k": "ver", "base": rng.choice(["min", "min", "real"]), "keys": rng.choice(["s", "s", "b", "bs", "sb"]),
                         "val": _j(rng.choice(VER_VALUES)), "val2": _j(rng.choice(VER_VALUES))})
@@ -519,10 +523,16 @@ def _replay_record(case):
     """First raw record of a shipped old dump with the per-message replay markers of formats <= 8 set as the case says
     (None = marker absent); -> (record, expected flow-level is_replay per the documented precedence request > response)."""
     d = tnetstring.load(open(os.path.join(DATA, case["file"]), "rb"))
+    for minor in range(11, case.get("adv", 11)):
+        # the 0.11 record in the shape of a later tuple-era version (input preparation only; shipped converters that the
+        # shipped dump already exercises)
+        d = tnetstring.loads(tnetstring.dumps(compat.converters[(0, minor)](d)))
     key = (lambda x: x.encode()) if b"request" in d else (lambda x: x)
     req, resp = d[key("request")], d.get(key("response"))
     if case.get("noresp"):
+        # an unanswered/failed flow: old StateObject.get_state wrote None for unset attributes (cf. error: None in the dumps)
         d[key("response")] = resp = None
+        d[key("error")] = {key("msg"): key("connection failed"), key("timestamp"): 1.0}
     for m, val in ((req, case["rq"]), (resp, case["rs"])):
         if m is not None:
             m.pop(key("is_replay"), None)
@@ -691,6 +701,7 @@ def run_impl(case):
     if case["k"] == "replay":
         obs["replay_want"] = info["replay_want"]
         obs["replay_got"] = flows[0].is_replay if flows else "<not loaded>"
+        obs["resp_none"] = bool(flows) and flows[0].response is None and (flows[0].error is not None) == bool(case.get("noresp"))
     if case["k"] == "wsfile":
         obs["ws_want"] = info["ws_want"]
         obs["ws_got"] = [[f.id, f.request.host, f.request.port, f.request.path,
@@ -794,7 +805,10 @@ def oracle(case, obs):
     if k == "replay":
         tag = f"{case['file']} record 0 with request.is_replay={case['rq']} response.is_replay={case['rs']}" + \
             (" and no response" if case.get("noresp") else "")
-        if obs["replay_got"] != obs["replay_want"]:
+        if case.get("noresp") and not (loaded and obs.get("resp_none")):
+            v.append({"key": "old-converters-no-response", "what": f"{tag}: an old flow without response (error flow) "
+                      f"in the 0.{case.get('adv', 'x')} shape does not load as a flow with response None (end={end})"})
+        elif obs["replay_got"] != obs["replay_want"]:
             v.append({"key": "replay-marker-lost", "what": f"{tag}: loaded flow has is_replay={obs['replay_got']!r}, "
                                                            f"expected {obs['replay_want']!r}"})
     if k == "wsfile":
